@@ -174,6 +174,8 @@ NextE == UNCHANGED dummy /\
               tv' = [op |-> "exp_se2", cs |-> cs, rho |-> rho, vr |-> SE2V(cs, rho), exp |-> RM(CMat(cs), cs[3])]
         \/ \E p \in {<<1,0>>, <<-2,1>>, <<3,-1>>} :
               tv' = [op |-> "log_se2", cs |-> cs, p |-> p, ur |-> SE2U(cs, p)]
+        (* composition of two planar rotations (angle sums on both sides of +-pi: the code may wrap the sum) *)
+        \/ \E c2 \in CSel : tv' = [op |-> "hom_c", cs |-> cs, cs2 |-> c2, exp |-> RM(MMul(CMat(cs), CMat(c2)), cs[3] * c2[3])]
         (* the SE(2) angle is a real number, |theta| < 2 pi: the same (c, s) with the angle wrapped to the
            other side, theta' = theta - 2 pi sgn(theta), |theta'| in [pi, 2 pi) -- V and V^-1 depend on
            theta' itself (same formulas, theta' in place of theta); reaches |theta'| up to 2 pi - 0.04 *)
@@ -189,6 +191,10 @@ NextE == UNCHANGED dummy /\
 SpecE == InitE /\ [][NextE]_<<tv, dummy>>
 
 (* ------------------------------ what TLC proves -------------------------------------- *)
+HomC   == tv.op = "hom_c" =>        \* angle addition: R(a) R(b) = R(a + b), and the product is a rotation (c^2 + s^2 = h^2)
+             LET a == tv.cs b == tv.cs2 c == a[1] * b[1] - a[2] * b[2] sn == a[2] * b[1] + a[1] * b[2] IN
+             /\ tv.exp.num = FM(CMat(<<c, sn, a[3] * b[3]>>)) \/ RMEq(tv.exp, RM(CMat(<<c, sn, a[3] * b[3]>>), a[3] * b[3]))
+             /\ c * c + sn * sn = (a[3] * b[3]) * (a[3] * b[3])
 HasH   == tv.op \in {"exp_so3", "exp_se3_gen", "exp_se23_gen", "exp_se3_screw", "exp_se23_screw", "log_so3", "log_se3", "log_se23"}
 VLawsOK == HasH /\ nOf(tv.h) # 0 /\ QNorm(tv.h) < 5000 => VLaws(tv.h) /\ VLaws(Principal(tv.h))
 SubgroupSE3 == tv.op = "hom_se3" =>
